@@ -97,7 +97,20 @@ class Pool:
         self.lib["f"] = bem.GridFunction(S["S0"], coefficients=cf)
         self.lib["g"] = bem.GridFunction(S["S0b"], coefficients=cg)
         self.lib["h"] = bem.GridFunction(S["S1"], coefficients=ch)
-        self.lib["fd"] = bem.GridFunction(S["S0"], projections=self.mass["S0"] @ (2 * cf), dual_space=S["S0"])
+        # grid functions in dual representation are lazy: reading .coefficients flips them to the primal representation for good, so each
+        # term gets fresh objects (otherwise only the very first term would see the dual representation)
+        M01 = np.asarray(B("sparse", "identity", S["S1"], S["S1"], S["S0"]).weak_form().to_dense())  # rows: DP0 test functions, cols: P1
+        ch1 = np.array([0.9, -0.4, 0.3, 1.7])
+        ch0 = np.array([-0.6, 1.1, 0.2, 0.5 + 0.25j])
+        self.fresh = {
+            "fd": lambda: bem.GridFunction(S["S0"], projections=self.mass["S0"] @ (2 * cf), dual_space=S["S0"]),
+            "hd1": lambda: bem.GridFunction(S["S1"], projections=self.mass["S1"] @ ch1, dual_space=S["S1"]),
+            "hd0": lambda: bem.GridFunction(S["S1"], projections=M01 @ ch0, dual_space=S["S0"]),
+        }
+        self.lib["fd"] = self.fresh["fd"]()
+        self.lib["hd1"], self.lib["hd0"] = self.fresh["hd1"](), self.fresh["hd0"]()
+        self.ref["hd1"] = ("gf", "S1", ch1)
+        self.ref["hd0"] = ("gf", "S1", ch0)
         self.ref["f"] = ("gf", "S0", cf)
         self.ref["g"] = ("gf", "S0", cg)
         self.ref["h"] = ("gf", "S1", ch)
@@ -137,7 +150,7 @@ LEAVES = {
     "bop": ["A", "A2", "H", "C", "D", "I0", "I1", "Z"],
     "blk": ["B1", "B2", "B3", "G1"],
     "disc": ["Dr", "Dc", "Sp", "Dg", "Inv", "Zd", "R1", "Rect"],
-    "gf": ["f", "g", "h", "fd"],
+    "gf": ["f", "g", "h", "fd", "hd1", "hd0"],
     "pot": ["p", "q", "pp", "ps"],
 }
 
@@ -238,6 +251,8 @@ def ref_eval(t, pool):
 def lib_eval(t, pool):
     op = t[0]
     if op == "leaf":
+        if t[1] in pool.fresh:
+            return pool.fresh[t[1]]()
         return pool.lib[t[1]]
     if op == "smul":
         return dict(SCALARS)[t[1]] * lib_eval(t[2], pool)
